@@ -106,6 +106,7 @@ class Explorer:
         self.pos = 0
         self.trace: list[int] = []
         self.sig: list[int] = []
+        self.conds: list = []
         self.pc: list = []
         self.pending: list = []
         self.model = None
@@ -160,7 +161,7 @@ class Explorer:
             return known[0]
         self.decisions_total += 1
         if self.pos < len(self.prefix):
-            d, eh = self.prefix[self.pos]
+            d, eh, _ = self.prefix[self.pos]
             if eh != h:
                 raise ReplayDivergence(
                     f'decision {self.pos}: recorded term hash {eh}, now {h} ({cond})')
@@ -184,7 +185,7 @@ class Explorer:
             r = self._check(other)
             if r == z3.sat:
                 self.pending.append(
-                    (tuple(zip(self.trace, self.sig)) + ((int(not guess), h),)))
+                    (tuple(zip(self.trace, self.sig, self.conds)) + ((int(not guess), h, cond),)))
             elif r == z3.unknown:
                 self.unknowns += 1
                 self.exhausted = False
@@ -192,6 +193,7 @@ class Explorer:
         self.pos += 1
         self.trace.append(int(d))
         self.sig.append(h)
+        self.conds.append(cond)
         c = cond if d else z3.Not(cond)
         self.pc.append(c)
         self.solver.add(c)
@@ -214,19 +216,20 @@ class Explorer:
             term = z3.Int(f'{label}@{self.pos}')
         h = hash(('pick', n, term.hash()))
         if self.pos < len(self.prefix):
-            d, eh = self.prefix[self.pos]
+            d, eh, _ = self.prefix[self.pos]
             if eh != h:
                 raise ReplayDivergence(
                     f'pick {self.pos}: recorded hash {eh}, now {h} ({label})')
         else:
             d = 0
-            base = tuple(zip(self.trace, self.sig))
+            base = tuple(zip(self.trace, self.sig, self.conds))
             for alt in range(n - 1, 0, -1):
-                self.pending.append(base + ((alt, h),))
+                self.pending.append(base + ((alt, h, None),))
         self.pos += 1
         self.trace.append(d)
         self.pick_log.append(d)
         self.sig.append(h)
+        self.conds.append(None)
         c = term == d
         self.pc.append(c)
         self.solver.add(c)
@@ -274,6 +277,7 @@ class Explorer:
                 self.pos = 0
                 self.trace = []
                 self.sig = []
+                self.conds = []
                 self.pc = []
                 self.pending = []
                 self.model = None
@@ -534,14 +538,26 @@ class _SymIntOps:
         return 7
 
     def concretize(self, limit=64) -> int:
-        """Fork over the feasible values (finite domain required)."""
+        """Fork over the feasible values (finite domain required).  The value
+        tried at each step is taken from the solver's model when the path is
+        new, and from the recorded decision when a prefix is replayed, so the
+        enumeration is replay-deterministic."""
         ex = current()
+        if z3.is_int_value(self.e):
+            return self.e.as_long()
         for _ in range(limit):
-            ex._ensure_model()
-            v = ex.model.eval(self.e, model_completion=True)
-            if not z3.is_int_value(v):
-                raise HarnessError(f'cannot evaluate {self.e}')
-            n = v.as_long()
+            n = None
+            if ex.pos < len(ex.prefix):
+                rec = ex.prefix[ex.pos][2]
+                if rec is not None and z3.is_eq(rec) and rec.arg(0).eq(self.e) \
+                        and z3.is_int_value(rec.arg(1)):
+                    n = rec.arg(1).as_long()
+            if n is None:
+                ex._ensure_model()
+                v = ex.model.eval(self.e, model_completion=True)
+                if not z3.is_int_value(v):
+                    raise HarnessError(f'cannot evaluate {self.e}')
+                n = v.as_long()
             if ex.decide(self.e == n):
                 return n
         ex.exhausted = False
@@ -560,26 +576,34 @@ class SymInt(_SymIntOps):
     non-int result with TypeError; the harness reports that as a harness
     error rather than guessing.
     """
-    __slots__ = ('e',)
+    __slots__ = ('e', 'opaque')
 
-    def __init__(self, e):
+    def __init__(self, e, opaque=None):
         if isinstance(e, str):
             e = z3.Int(e)
         elif isinstance(e, int):
             e = z3.IntVal(e)
         self.e = e
+        # `opaque`: value returned by int(x) instead of forking over the
+        # values; only for symbols whose int() is used for text (messages)
+        self.opaque = opaque
 
     def __index__(self):
         return self
 
     def __int__(self):
+        if self.opaque is not None:
+            return self.opaque
         return self.concretize()
 
+    # Text made from a symbolic integer (error messages, reprs) shows the
+    # term; it never forces a value.  Harnesses whose subject *is* text
+    # (writers) concretise explicitly.
     def __str__(self):
-        return str(self.concretize())
+        return f'<{self.e}>'
 
     def __format__(self, spec):
-        return format(self.concretize(), spec)
+        return f'<{self.e}>'
 
 
 SENTINEL = -(2 ** 61) + 12345
@@ -607,13 +631,13 @@ class SymIntI(_SymIntOps, int):
         return self.concretize()
 
     def __str__(self):
-        return str(self.concretize())
+        return f'<{self.e}>'
 
     __repr__ = _SymIntOps.__repr__
     __hash__ = _SymIntOps.__hash__
 
     def __format__(self, spec):
-        return format(self.concretize(), spec)
+        return f'<{self.e}>'
 
 
 class SymDriver:
